@@ -127,6 +127,12 @@ func poolConfigs(prop string, thorough bool) (cfgs []poolCfg, depth int) {
 				}
 			}
 		}
+		// non-initial root: fallback on, the home of a bound key is down; UNBIND calls included: once
+		// unbound the key is an unknown key and must be spread like any other
+		hd := poolCfg{Name: "C02 pool=3 fallback root=home-down", Min: 3, Max: 3, WM: 100, Fallback: true, Depth: 5,
+			Setup: append(readyPool(3), "pick(bind,,L,g)", "done(0,ok:k1)", "state(0,IDLE)")}
+		hd.A = alphabet{States: "basic", Cmds: []string{"plain", "bound", "unbind"}, Keys: []string{"k1"}, Gens: []string{"L"}, Ctx: []string{"g"}, Done: []string{"ok"}, MaxOpen: 3, MaxSC: 4}
+		add(hd)
 		// non-initial root: one channel carries a very large number of bound keys (the per-channel key
 		// counter must never weigh in the least-loaded decision)
 		for _, nk := range []int{70000, 1 << 24, 1<<31 - 1} {
@@ -153,6 +159,12 @@ func poolConfigs(prop string, thorough bool) (cfgs []poolCfg, depth int) {
 			Setup: append(readyPool(1), "pick(plain,,L,g,d1)", "pick(plain,,L,g,d1)", "adv(2)", "done(0,cde)", "state(1,CONNECTING)")}
 		rr.A = alphabet{States: "basic", Cmds: []string{"plain"}, Gens: []string{"L"}, Ctx: []string{"g,d1"}, Done: []string{"ok", "cde"}, Adv: []int{2}, MaxOpen: 3, MaxSC: 5}
 		add(rr)
+		// same with a low watermark: calls that were open on the old connection at the swap must be
+		// un-counted when they complete, or the channel looks saturated and the pool grows for nothing
+		rw := poolCfg{Name: "C03 min=1 max=2 wm=2 root=refreshing", Min: 1, Max: 2, WM: 2, RefCalls: 1, RefMs: 1, Depth: 5,
+			Setup: append(readyPool(1), "pick(plain,,L,g,d1)", "pick(plain,,L,g,d1)", "adv(2)", "done(0,cde)", "state(1,CONNECTING)")}
+		rw.A = alphabet{States: "basic", Cmds: []string{"plain"}, Gens: []string{"L"}, Ctx: []string{"g"}, Done: []string{"ok"}, MaxOpen: 3, MaxSC: 5}
+		add(rw)
 	case "C04":
 		depth = 6
 		if thorough {
@@ -184,7 +196,8 @@ func poolConfigs(prop string, thorough bool) (cfgs []poolCfg, depth int) {
 		}
 		base := alphabet{Resolve: []string{"a2", "empty"}, ResErr: true, States: "basic", Shutdown: true, Unknown: true,
 			Cmds: []string{"plain", "bind", "bound", "unbind", "badloc"}, Keys: []string{"k1"}, Gens: []string{"L", "P", "O"},
-			Ctx: []string{"g", "n", "el", "gn"}, Done: []string{"ok", "ok:k1", "err", "nr"}, Fail: true, MaxOpen: 2, MaxSC: 4}
+			Ctx: []string{"g", "n", "el", "gn", "g,d0"}, Done: []string{"ok", "ok:k1", "err", "nr"}, Fail: true, MaxOpen: 2, MaxSC: 4}
+		// ("g,d0": the call's deadline has already passed when gRPC asks for a pick)
 		base.Close = true
 		feats := []string{"all", "plain", "fallback", "refresh", "rr"}
 		for _, f := range feats {
@@ -200,7 +213,7 @@ func poolConfigs(prop string, thorough bool) (cfgs []poolCfg, depth int) {
 				c.RR = true
 			}
 			if c.RefCalls > 0 {
-				c.A.Ctx = []string{"g,d1", "n,d1", "el", "gn"}
+				c.A.Ctx = []string{"g,d1", "n,d1", "el", "gn", "g,d0"}
 				c.A.Done = append(append([]string{}, base.Done...), "cde")
 				c.A.Adv = []int{2}
 			}
@@ -338,8 +351,8 @@ func poolConfigs(prop string, thorough bool) (cfgs []poolCfg, depth int) {
 		}
 		for _, n := range []uint32{1, 2, 3} {
 			c := poolCfg{Name: fmt.Sprintf("C09 pool=%d", n), Min: n, Max: n, WM: 100, RR: true, RefCalls: 1, RefMs: 1, Setup: []string{"resolve(a1)"}}
-			c.A = alphabet{States: "basic", Cmds: []string{"bind", "plain"}, Gens: []string{"L"}, Ctx: []string{"g", "g,c", "g,d1"},
-				Done: []string{"ok", "cde"}, Adv: []int{2, 100}, MaxOpen: 3, MaxSC: int(n) + 1}
+			c.A = alphabet{States: "basic", Cmds: []string{"bind", "plain"}, Gens: []string{"L"}, Ctx: []string{"g", "g,c", "g,d1", "g,d0"},
+				Done: []string{"ok", "err", "cde"}, Adv: []int{2, 100}, MaxOpen: 3, MaxSC: int(n) + 1}
 			add(c)
 		}
 		// non-initial root: a BIND parked on a channel that is not READY and whose
